@@ -149,6 +149,9 @@ Proof.
     eapply TD_frame; eauto. apply frame_setc. apply psoft_any_flags.
   - inversion H; subst. destruct (_ && _); auto. eapply TD_frame; eauto using frame_cancel.
   - destruct (_ && _); inversion H; subst. eapply TD_frame; eauto. apply frame_setc. apply psoft_any_flags.
+  - destruct (_ && _); inversion H; subst. eapply TD_frame; eauto. apply frame_setc. apply psoft_any_flags.
+  - destruct (c_pc (getc s c)); try discriminate. destruct (_ && _); inversion H; subst.
+    eapply TD_frame; eauto. apply frame_setc. apply psoft_any_flags.
   - destruct t.
     + destruct (main_ready s) eqn:R; simpl in H; [|discriminate]. destruct (negb thrown); inversion H; subst.
       apply TD_run_main; auto.
@@ -178,6 +181,6 @@ Proof.
   unfold TD in D. rewrite M in D. destruct D as (n' & T' & _ & D). rewrite T in T'. inversion T'; subst n'.
   specialize (D c C1 C2). assert (C : Nat.eqb c 0 = false) by (apply Nat.eqb_neq; lia).
   destruct (I c C) as [_ K]. unfold wok in K. rewrite W in K. unfold settledc in D.
-  destruct (c_pc (getc s c)) as [| | | | | | | | | |x]; simpl in *; try discriminate; try (destruct K; discriminate).
+  destruct (c_pc (getc s c)) as [| | | | | | | | | | | |x]; simpl in *; try discriminate; try (destruct K; discriminate).
   destruct x; simpl in K; try discriminate; try (destruct K; discriminate); auto.
 Qed.
